@@ -276,3 +276,69 @@ func sortedInts(m map[int]bool) []int {
 	sort.Ints(l)
 	return l
 }
+
+
+// constructImage builds a disk image, in the documented record layout, that a
+// previous process could have left behind, with the pending identifier ranges
+// positioned at the 14-bit wrap-around. The ledger and the broker model get
+// the matching history.
+func (f *Flow) constructImage() {
+	w := f.W
+	t := w.Tape
+	w.Gen = 1
+	seqNo := uint64(1)
+	w.Disk.M[0] = EncodeRecord([]byte(f.O.ClientID), seqNo)
+	sess := &Session{ClientID: f.O.ClientID, InQ2: map[uint16]bool{}, Subs: map[string]byte{}}
+	w.Broker.Sessions[f.O.ClientID] = sess
+	si := &StopInfo{Gen: 1, Step: 0, Lower: map[int]bool{}, Upper: map[int]bool{}, Rel: map[int]bool{}, RelMaybe: map[int]bool{}}
+	starts := []int{0x3ffd, 0x3ffe, 0x3fff, 0x3ffa, 0, 1, 0x2000}
+	n1 := t.Draw("wrap-n1", 7)
+	s1 := starts[t.Draw("wrap-s1", len(starts))]
+	nrel := t.Draw("wrap-nrel", 4)
+	n2 := t.Draw("wrap-n2", 5)
+	s2 := starts[t.Draw("wrap-s2", len(starts))]
+	if f.O.ALOMax >= 0 && n1 > f.O.ALOMax {
+		n1 = f.O.ALOMax
+	}
+	if f.O.EOMax >= 0 && nrel+n2 > f.O.EOMax {
+		nrel, n2 = 0, f.O.EOMax
+	}
+	add := func(qos byte, seq int, rel bool, i int) {
+		space := uint16(0x8000)
+		if qos == 2 {
+			space = 0xc000
+		}
+		id := space | uint16(seq&0x3fff)
+		topic := fmt.Sprintf("wrap/q%d/%d", qos, i)
+		payload := []byte(topic + "|constructed")
+		pb := &Pub{Idx: len(f.Pubs), Task: "previous-process", QoS: qos, Topic: topic, Payload: payload, Invoke: 0, Ret: 1, Gen: 1, ID: id, Saved: true, SavedAny: true, FirstWire: 1}
+		f.Pubs = append(f.Pubs, pb)
+		f.byTopic[topic] = pb
+		f.byID[id] = pb
+		seqNo++
+		if rel {
+			pb.RelSaved = true
+			w.Disk.M[uint(id)] = EncodeRecord(EncAck(PUBREL, id).Raw, seqNo)
+			si.Rel[pb.Idx] = true
+			// the broker has seen the PUBLISH and awaits PUBREL
+			sess.InQ2[id] = true
+			w.Broker.Deliv = append(w.Broker.Deliv, Delivery{QoS: 2, Topic: topic, Payload: payload, ID: id})
+		} else {
+			w.Disk.M[uint(id)] = EncodeRecord(EncPublish(qos, false, false, id, topic, payload).Raw, seqNo)
+		}
+		si.Lower[pb.Idx] = true
+		si.Upper[pb.Idx] = true
+	}
+	for i := 0; i < n1; i++ {
+		add(1, s1+i, false, i)
+	}
+	for i := 0; i < nrel+n2; i++ {
+		add(2, s2+i, i < nrel, i)
+	}
+	if (s1+n1 > 0x3fff && n1 > 0) || (s2+nrel+n2 > 0x3fff && nrel+n2 > 0) {
+		w.Probe("pending_range_straddles_wrap")
+	}
+	si.Image = w.Disk.Snapshot()
+	f.Stops = append(f.Stops, si)
+	w.Ev("image", 0, "constructed image: %d at-least-once from %#x, %d PUBREL + %d exactly-once from %#x", n1, s1, nrel, n2, s2)
+}
